@@ -12,7 +12,7 @@ LOGIC = ['--no-signed-overflow-check', '--memory-leak-check']   # CBMC 6: the ot
 MF = ['--malloc-may-fail', '--malloc-fail-null']
 
 C14R = dict(prop='C14', harness='harness/C14/pages.c', extra_sources=[], checks=LOGIC, cbmc_flags=MF,
-            trusted=T_STUBS, wip=True, **PR)
+            trusted=T_STUBS, wip=False, **PR)
 JOBS = [
     dict(name='c14_load_dictionary_page_mmap', entry='h_c14_dict_mmap', functions=['load_dictionary_page_mmap', 'decompress_page'], **C14R),
     dict(name='c14_load_dictionary_page_fread', entry='h_c14_dict_fread', functions=['load_dictionary_page_fread', 'decompress_page'], **C14R),
@@ -21,16 +21,44 @@ JOBS = [
 
 ]
 
-C04R = dict(prop='C04', harness='harness/C04/pages.c', extra_sources=['stubs/mem_stubs.c'], checks=['--memory-leak-check'],
+ALL_SRC = ['src/compression/gzip.c', 'src/compression/lz4.c', 'src/compression/snappy.c', 'src/compression/zstd.c',
+           'src/core/arena.c', 'src/core/bitpack.c', 'src/core/buffer.c', 'src/core/endian.c', 'src/core/error.c',
+           'src/encoding/byte_stream_split.c', 'src/encoding/delta.c', 'src/encoding/delta_length.c', 'src/encoding/delta_strings.c',
+           'src/encoding/dictionary.c', 'src/encoding/plain.c', 'src/encoding/rle.c', 'src/metadata/bloom_filter.c',
+           'src/metadata/page_index.c', 'src/metadata/schema.c', 'src/metadata/statistics.c', 'src/reader/batch_reader.c',
+           'src/reader/column_reader.c', 'src/reader/file_reader.c', 'src/reader/mmap_reader.c', 'src/reader/page_reader.c',
+           'src/reader/row_group_reader.c', 'src/reader/statistics.c', 'src/simd/detect.c', 'src/simd/dispatch.c',
+           'src/thrift/parquet_types.c', 'src/thrift/thrift_decode.c', 'src/thrift/thrift_encode.c', 'src/util/crc32.c',
+           'src/util/xxhash.c', 'src/writer/column_writer.c', 'src/writer/file_writer.c', 'src/writer/page_writer.c',
+           'src/writer/row_group_writer.c']
+FZ_MMAP = dict(kind='fuzz', harness='replay/fz/pages_mmap.c', sources=ALL_SRC, max_len=96, secs=25)
+C04R = dict(prop='C04', est_s=20, harness='harness/C04/pages.c', extra_sources=[], checks=['--memory-leak-check'],
             cbmc_flags=MF, trusted=T_STUBS, wip=True, **PR)
 JOBS += [
-    dict(name='c04_load_dictionary_page_mmap', entry='h_c04_dict_mmap', functions=['load_dictionary_page_mmap', 'decompress_page'], **C04R),
-    dict(name='c04_load_dictionary_page_fread', entry='h_c04_dict_fread', functions=['load_dictionary_page_fread', 'decompress_page'], **C04R),
+    dict(name='c04_load_dictionary_page_mmap', replayer=FZ_MMAP, note='FINDING (genuine, native demo /tmp/pagesites/native/demo.c modes 1-5, fuzz replay reproduces): mmap load paths never compare dictionary_page_offset / data_start_offset+current_page / the 256-byte header window / compressed_page_size / num_values with file_size; negative num_values reaches memset(NULL, 0, huge); unchecked malloc results in the zero-copy path; signed overflow on attacker-controlled offsets', entry='h_c04_dict_mmap', functions=['load_dictionary_page_mmap', 'decompress_page'], **C04R),
+    dict(name='c04_load_dictionary_page_fread', note='FINDING (minor): signed overflow (UB) in offset arithmetic on attacker-controlled int64 offsets (dictionary_page_offset + header_size + compressed_page_size, data_offset + current_page); all buffer accesses on the fread paths are discharged', entry='h_c04_dict_fread', functions=['load_dictionary_page_fread', 'decompress_page'], **C04R),
     # case split over the column type: every type value except FIXED_LEN_BYTE_ARRAY (proof), FLBA with a fixed length (bounded)
-    dict(name='c04_load_next_page_mmap', entry='h_c04_page_mmap', defines=['PG_NOT_FLBA=1'], functions=['load_next_page_mmap', 'load_dictionary_page_mmap', 'decompress_page'], **C04R),
-    dict(name='c04_load_next_page_fread', entry='h_c04_page_fread', defines=['PG_NOT_FLBA=1'], functions=['load_next_page_fread', 'load_dictionary_page_fread', 'decompress_page'], **C04R),
-    dict(name='c04_load_next_page_mmap_flba16', entry='h_c04_page_mmap', defines=['PG_FLBA=16'], level='bounded', bound='FIXED_LEN_BYTE_ARRAY columns with type_length == 16',
+    dict(name='c04_load_next_page_mmap', replayer=FZ_MMAP, note='FINDING (genuine, native demo /tmp/pagesites/native/demo.c modes 1-5, fuzz replay reproduces): mmap load paths never compare dictionary_page_offset / data_start_offset+current_page / the 256-byte header window / compressed_page_size / num_values with file_size; negative num_values reaches memset(NULL, 0, huge); unchecked malloc results in the zero-copy path; signed overflow on attacker-controlled offsets', entry='h_c04_page_mmap', defines=['PG_NOT_FLBA=1', 'PG_MEM_NOCONTENT=1'], functions=['load_next_page_mmap', 'load_dictionary_page_mmap', 'decompress_page'], **C04R),
+    dict(name='c04_load_next_page_fread', note='FINDING (minor): signed overflow (UB) in offset arithmetic on attacker-controlled int64 offsets (dictionary_page_offset + header_size + compressed_page_size, data_offset + current_page); all buffer accesses on the fread paths are discharged', entry='h_c04_page_fread', defines=['PG_NOT_FLBA=1', 'PG_MEM_NOCONTENT=1'], functions=['load_next_page_fread', 'load_dictionary_page_fread', 'decompress_page'], **C04R),
+    dict(name='c04_load_next_page_mmap_flba16', replayer=FZ_MMAP, note='FINDING (genuine, native demo /tmp/pagesites/native/demo.c modes 1-5, fuzz replay reproduces): mmap load paths never compare dictionary_page_offset / data_start_offset+current_page / the 256-byte header window / compressed_page_size / num_values with file_size; negative num_values reaches memset(NULL, 0, huge); unchecked malloc results in the zero-copy path; signed overflow on attacker-controlled offsets', entry='h_c04_page_mmap', defines=['PG_FLBA=16', 'PG_MEM_NOCONTENT=1'], level='bounded', bound='FIXED_LEN_BYTE_ARRAY columns with type_length == 16',
          functions=['load_next_page_mmap', 'load_dictionary_page_mmap', 'decompress_page'], **C04R),
-    dict(name='c04_load_next_page_fread_flba16', entry='h_c04_page_fread', defines=['PG_FLBA=16'], level='bounded', bound='FIXED_LEN_BYTE_ARRAY columns with type_length == 16',
+    dict(name='c04_load_next_page_fread_flba16', note='FINDING (minor): signed overflow (UB) in offset arithmetic on attacker-controlled int64 offsets (dictionary_page_offset + header_size + compressed_page_size, data_offset + current_page); all buffer accesses on the fread paths are discharged', entry='h_c04_page_fread', defines=['PG_FLBA=16', 'PG_MEM_NOCONTENT=1'], level='bounded', bound='FIXED_LEN_BYTE_ARRAY columns with type_length == 16',
          functions=['load_next_page_fread', 'load_dictionary_page_fread', 'decompress_page'], **C04R),
+]
+
+PW = dict(overlays=['contracts/page_writer.ovl'], harness='harness/C09/page_writer.c', includes=['src'], loop_contracts=False,
+          checks=['--memory-leak-check'], cbmc_flags=MF, wip=False,
+          trusted=['harness/C09/page_writer.c: assumed contracts of carquet_buffer_* (append may fail; sizes < 2^40), thrift_write_* (field log), '
+                   'codec compress / compress_bound (reported size <= capacity), carquet_crc32 (arbitrary value)'])
+JOBS += [
+    dict(name='c09_compress_data', prop='C09', entry='h_c09_compress_data', functions=['compress_data'], **PW),
+    dict(name='c14_page_writer_finalize', prop='C14', entry='h_c14_finalize', functions=['carquet_page_writer_finalize', 'compress_data'], **PW),
+]
+
+# page decoders under their own contracts (callees = assumed contracts in stubs/pages_stubs.c)
+JOBS += [
+    dict(name='c04_read_dictionary_page', prop='C04', harness='harness/C04/pages.c', entry='h_c04_read_dictionary_page',
+         overlays=['contracts/page_reader.ovl'], includes=['src'], enforce='carquet_read_dictionary_page', min_loop_obligations=1,
+         defines=['PG_MEMCPY_SMALL=1'], extra_sources=[], cbmc_flags=MF, trusted=T_STUBS[:1], wip=True, tier='thorough',
+         note='UNDECIDED: SAT back end runs out of memory (8 GB) after enforce-contract instrumentation; cause not isolated (not the loop, not havoc_slice, not is_fresh). The expected defect (memcpy of value_size*num_values bytes unchecked against page_size) is shown natively: /tmp/pagesites/native/demo.c mode 6'),
 ]
